@@ -4,4 +4,4 @@ From Coq Require Extraction.
 From Coq Require Import ExtrOcamlBasic.
 From UV Require Import Base Codec Model Blocks.
 Extraction "extraction/model.ml" Model.step Model.world0 Model.run Codec.apply_patch Codec.simple_diff
-  Codec.wf_matches Codec.enc_u Codec.dec_u Codec.enc_s Codec.dec_s Base.hex_of_bytes Base.unhex Blocks.sched Blocks.mk_thread Blocks.thread_done Blocks.thread_step.
+  Codec.wf_matches Codec.enc_u Codec.dec_u Codec.enc_s Codec.dec_s Base.hex_of_bytes Base.unhex Blocks.sched Blocks.mk_thread Blocks.thread_done Blocks.thread_step Blocks.world_actions.
